@@ -19,6 +19,9 @@ pub enum End {
 #[derive(Clone, Copy, Debug, PartialEq, Eq)]
 pub enum WrMode {
     Accept,
+    /// accepts this many more bytes (possibly ending inside a packet), then blocks; reported to the trace as `accept`, and
+    /// as `block` at the moment the budget runs out
+    Budget(usize),
     Max(usize),
     Block,
     Err,
@@ -27,6 +30,7 @@ pub enum WrMode {
 
 #[derive(Clone, Debug)]
 pub enum IoEv {
+    AutoBlock,
     Rd(usize),
     RdPending,
     RdEof,
@@ -46,6 +50,7 @@ pub struct PipeInner {
     pub out_unframed: Vec<u8>,
     pub out_total: usize,
     pub wr_mode: WrMode,
+    pub close_mode: u8,
     pub wr_waker: Option<Waker>,
     pub log: Vec<IoEv>,
     pub log_io: bool,
@@ -65,6 +70,7 @@ impl Pipe {
             out_unframed: vec![],
             out_total: 0,
             wr_mode: WrMode::Accept,
+            close_mode: 0,
             wr_waker: None,
             log: vec![],
             log_io: false,
@@ -207,6 +213,20 @@ impl AsyncWrite for Writer {
                 }
                 Poll::Ready(Ok(n))
             }
+            WrMode::Budget(b) => {
+                if b == 0 {
+                    g.wr_mode = WrMode::Block;
+                    g.log.push(IoEv::AutoBlock);
+                    g.wr_waker = Some(cx.waker().clone());
+                    g.log.push(IoEv::WrPending);
+                    Poll::Pending
+                } else {
+                    let n = b.min(buf.len());
+                    g.accept(&buf[..n]);
+                    g.wr_mode = WrMode::Budget(b - n);
+                    Poll::Ready(Ok(n))
+                }
+            }
             WrMode::Block => {
                 g.wr_waker = Some(cx.waker().clone());
                 g.log.push(IoEv::WrPending);
@@ -226,6 +246,12 @@ impl AsyncWrite for Writer {
         Poll::Ready(Ok(()))
     }
     fn poll_close(self: Pin<&mut Self>, _cx: &mut Context<'_>) -> Poll<io::Result<()>> {
-        Poll::Ready(Ok(()))
+        // what closing the write half does is the transport's business (0 = succeeds, 1 = fails, 2 = never completes); the
+        // library's documented outcomes do not depend on it
+        match (self.0).0.lock().unwrap().close_mode {
+            1 => Poll::Ready(Err(io::Error::new(io::ErrorKind::NotConnected, "injected close error"))),
+            2 => Poll::Pending,
+            _ => Poll::Ready(Ok(())),
+        }
     }
 }
